@@ -364,28 +364,16 @@ def rule_wc1(ctx: Ctx) -> RuleResult:
     for site in ctx.mux_sites():
         for spec in site.handler_specs("on_next"):
             handler_fns.add(spec.fn)
-    # helpers called from a handler (e.g. one flush routine shared by the Completed and Error branches)
-    from ..model import _lookup_def
-    work = [(f, None) for f in handler_fns]
-    mod_of = {}
+    # helpers reached from a handler (a flush routine shared by the Completed and Error branches, per-event functions
+    # chosen through a dispatch table, handlers handed to a shared operator template): every function the path
+    # enumeration enters on some path of some handler
     for site in ctx.mux_sites():
         for spec in site.handler_specs("on_next"):
-            mod_of[spec.fn] = site.module
-    seen = set(handler_fns)
-    frontier = list(handler_fns)
-    while frontier:
-        f = frontier.pop()
-        fm = mod_of.get(f)
-        if fm is None:
-            continue
-        for n in ast.walk(f):
-            if isinstance(n, ast.Call) and isinstance(n.func, ast.Name):
-                d = _lookup_def(fm, f, n.func.id)
-                if d is not None and d not in seen:
-                    seen.add(d)
-                    mod_of[d] = fm
-                    frontier.append(d)
-    handler_fns = seen
+            for kind, cfg, paths in ctx.all_paths(spec):
+                for p in paths:
+                    for e in p.trace:
+                        if e.k == "inline":
+                            handler_fns.add(e.fn)
     ops = {"add_key", "del_key", "get_state", "set_state", "add_map", "del_map", "get_map", "iterate_map", "iterate_state"}
     for rel, m in sorted(prog.by_relpath.items()):
         for node in ast.walk(m.tree):
